@@ -40,6 +40,7 @@ ODT_FEATURES = {
     "space-count": "text:s text:c=3 between two tokens (twin: one plain space)",
     "heading-in-list": "text:h inside a list item (twin: text:p)",
     "note-with-headings": "footnote / annotation inside a paragraph of a document that has headings (twin: no headings)",
+    "empty-section": "a heading directly followed by a heading of the same level, i.e. a section without body text (twin: one paragraph between them)",
 }
 ODP_FEATURES = {
     "notes-only-slide": "slide whose only text is in speaker notes (twin: no notes)",
@@ -118,7 +119,7 @@ def build_odt(seed: int, feature: str | None = None, twin: bool = False):
     use_headings = rng.random() < 0.5
     if feature == "note-with-headings":
         use_headings = not twin
-    if feature == "heading-in-list":
+    if feature in ("heading-in-list", "empty-section"):
         use_headings = True      # the risky form adds a heading: keep the twin comparable and notes out (see note-with-headings)
     allow_notes = (not use_headings) or feature == "note-with-headings"
     n_img = 0
@@ -178,12 +179,13 @@ def build_odt(seed: int, feature: str | None = None, twin: bool = False):
 
     def flist(nested=False, heading_item=False):
         items = []
-        for i in range(rng.randint(2, 3)):
-            inner = f'<text:p text:style-name="List">{" ".join(w("l", 1, 2))}</text:p>'
+        for i in range(3 if heading_item else rng.randint(2, 3)):    # (the heading item is followed by an ordinary item: an empty section is its own feature)
+            if heading_item and i == 1:      # (decided before any token of the item is recorded)
+                inner = f'<text:h text:outline-level="2">{" ".join(w("h", 1, 1, True))}</text:h>'
+            else:
+                inner = f'<text:p text:style-name="List">{" ".join(w("l", 1, 2))}</text:p>'
             if nested and i == 0:
                 inner += f'<text:list><text:list-item><text:p text:style-name="List">{" ".join(w("l", 1, 2))}</text:p></text:list-item></text:list>'
-            if heading_item and i == 1:
-                inner = f'<text:h text:outline-level="2">{" ".join(w("h", 1, 1, True))}</text:h>'
             items.append(f"<text:list-item>{inner}</text:list-item>")
         return f'<text:list text:style-name="L1">{"".join(items)}</text:list>'
 
@@ -248,6 +250,12 @@ def build_odt(seed: int, feature: str | None = None, twin: bool = False):
                 body.append(f'<text:p>{a} {b2}</text:p>' if twin else f'<text:p>{a}<text:s text:c="3"/>{b2}</text:p>')
             elif feature == "heading-in-list":
                 body.append(flist(heading_item=not twin))
+            elif feature == "empty-section":
+                body.append(f'<text:h text:style-name="Heading_20_1" text:outline-level="1">{" ".join(w("h", 1, 2, True))}</text:h>')
+                if twin:
+                    body.append(para())
+                body.append(f'<text:h text:style-name="Heading_20_1" text:outline-level="1">{" ".join(w("h", 1, 2, True))}</text:h>')
+                body.append(para())
             elif feature == "note-with-headings":
                 n, m = exp.out(tk.new("n")), exp.out(tk.new("m"))
                 body.append(f'<text:p>{w("b", 1, 1)[0]}<text:note text:id="ftnX" text:note-class="footnote"><text:note-citation>1</text:note-citation><text:note-body><text:p>{n}</text:p></text:note-body></text:note> '
